@@ -41,6 +41,8 @@ def normal_origin(origin: str) -> str:
             node = ast.parse(text, mode="eval").body
             if isinstance(node, ast.Call):
                 text = (node.func.attr if isinstance(node.func, ast.Attribute) else ast.unparse(node.func)) + "(…)"
+                if text == "read_text(…)":
+                    text = "read(…)"      # Path.read_text is open().read(): the same strict text read
             elif isinstance(node, ast.Subscript) and isinstance(node.value, ast.Call) and isinstance(node.value.func, ast.Attribute):
                 text = f"{node.value.func.attr}(…)[{ast.unparse(node.slice)}]"
             elif m:
@@ -56,6 +58,10 @@ def normal_origin(origin: str) -> str:
         if m:
             text = "raise " + m.group(1)
     return f"{fn} | {kind} | {text}"
+
+
+from ..canon import ref_table as _ref_table
+_KNOWN_FUNCTIONS = set(_ref_table().get("__functions__", []))
 
 
 def rule_escape(ck: Check, repo: Repo, cg: CallGraph, esc: Escape) -> None:
@@ -76,6 +82,19 @@ def rule_escape(ck: Check, repo: Repo, cg: CallGraph, esc: Escape) -> None:
                 r.instance(f"{name}:{exc}:{origin}", None)
                 continue
             ofn = origin.split("|")[0].strip()
+            # code that moved into a helper the confirmed tree does not have is the caller's code: the origin is stated for the one
+            # known function that calls the helper, so that a recorded defect is recognised where it now sits
+            hops = 0
+            while _KNOWN_FUNCTIONS and ofn in repo.functions and ofn not in _KNOWN_FUNCTIONS and hops < 3:
+                callers = sorted({g for g, ks in esc.esc.items() if key in ks and ks[key][0] == "via" and ks[key][1] == ofn})
+                if len(callers) != 1:
+                    break
+                origin = callers[0] + " |" + origin.split("|", 1)[1]
+                rehomed = (exc, origin)
+                # the caller holds the pair under the original key; keep looking it up there
+                ofn = callers[0]
+                hops += 1
+                key_lookup = key
             # the unguarded callers through which it leaves the origin function are part of the construct: a NEW call
             # site that lets the same exception out is a new defect, not the recorded one
             vias = sorted({g.rsplit(".", 1)[-1] if not g.startswith("reuse.vcs.") else "vcs" for g, ks in esc.esc.items()
@@ -100,7 +119,9 @@ def rule_escape(ck: Check, repo: Repo, cg: CallGraph, esc: Escape) -> None:
         return not any(r_.violations for r_ in tmp.rules)
 
     proj_fn = repo.func("reuse.cli.common.ClickObj.project")
-    fr_calls = find_calls(proj_fn, lambda c, f: f == "find_root")
+    # the root lookup may sit in a helper of the same class / module: every call of find_root in reuse.cli.common counts
+    fr_calls = [c for q_, f_ in repo.functions.items() if q_.startswith("reuse.cli.common.")
+                for c in find_calls(f_, lambda c, f: f == "find_root")]
     pe_src = re.sub(r"\s+", " ", ast.unparse(repo.func("reuse.report._process_error")))
     side = {
         "builtins.NotImplementedError": holds(c04.rule_exclusive),
@@ -129,7 +150,7 @@ def rule_escape(ck: Check, repo: Repo, cg: CallGraph, esc: Escape) -> None:
     ck.extra["triage_side_conditions"] = side
     # side conditions of the triage table
     proj = repo.func("reuse.cli.common.ClickObj.project")
-    fr = find_calls(proj, lambda c, f: f == "find_root")
+    fr = fr_calls
     r.instance("find_root-call", {"args": [ast.unparse(c) for c in fr]})
     if not fr or any(c.args or c.keywords for c in fr):
         r.violation("reuse.cli.common.ClickObj.project", "find_root is called with an argument",
@@ -394,6 +415,8 @@ def rule_format_strings(ck: Check, repo: Repo, rid: str = "R6") -> None:
             return constant_format(e.left, fn) and constant_format(e.right, fn)
         if isinstance(e, ast.JoinedStr):
             return all(isinstance(v, ast.Constant) for v in e.values)
+        if isinstance(e, ast.IfExp):
+            return constant_format(e.body, fn) and constant_format(e.orelse, fn)
         if isinstance(e, ast.Name) and fn is not None:
             # every binding of the local must be a constant format (an augmented assignment counts)
             vals = []
@@ -404,6 +427,18 @@ def rule_format_strings(ck: Check, repo: Repo, rid: str = "R6") -> None:
                     vals.append(st.value)
                 elif isinstance(st, ast.AnnAssign) and isinstance(st.target, ast.Name) and st.target.id == e.id and st.value is not None:
                     vals.append(st.value)
+            # ... or the name is one position of the target of a loop over a literal table of tuples: every row's entry counts
+            for lp in ast.walk(fn):
+                if isinstance(lp, ast.For) and isinstance(lp.target, ast.Tuple) and isinstance(lp.iter, (ast.Tuple, ast.List)):
+                    pos = [i for i, t in enumerate(lp.target.elts) if isinstance(t, ast.Name) and t.id == e.id]
+                    if pos:
+                        for row in lp.iter.elts:
+                            if isinstance(row, (ast.Tuple, ast.List)) and len(row.elts) == len(lp.target.elts):
+                                vals.append(row.elts[pos[0]])
+                            else:
+                                return False
+                elif isinstance(lp, (ast.For, ast.comprehension)) and any(isinstance(t, ast.Name) and t.id == e.id for t in ast.walk(lp.target)):
+                    return False  # bound by a loop over something that is not a literal table
             params = {a.arg for a in fn.args.args + fn.args.kwonlyargs}
             return bool(vals) and e.id not in params and all(constant_format(v, None if isinstance(v, ast.Name) else fn) for v in vals)
         return False
@@ -542,6 +577,9 @@ def run(ck: Check, repo: Repo) -> None:
         raise AnalysisError(f"too many unresolved calls ({len(cg.unresolved)})")
     ck.extra.setdefault("hygiene_scope", []).extend(sorted(cg.reachable(["reuse.cli.main.main"] + [repo.qualname_of(f) for f in repo.commands().values()])))
     rule_escape(ck, repo, cg, esc)
+    from .. import callgraph as _cgm
+    for m in sorted(set(_cgm.UNDECIDED_ORDERINGS)):
+        ck.defer(AnalysisError(f"R1: {m}: whether a TypeError can leave this call is not decided"))
     rule_validate(ck, repo)
     rule_isolation(ck, repo)
     rule_source(ck, repo)
